@@ -139,6 +139,16 @@ def main():
     fresh_mod = load_module(fresh_path, "fresh_parser_c16")
     A = canon(shipped_mod.DATA, shipped_mod.MEMO); B = canon(fresh_mod.DATA, fresh_mod.MEMO)
     ShippedP = shipped_mod.Parser(); FreshP = fresh_mod.Lark_StandAlone()
+    # the same generated module as the package uses it: imported as measured._parser after measured.parsing has built its own
+    # (transformer-equipped) parser from it; a parser constructed afterwards must still be the plain parser of the grammar
+    PkgP = None
+    try:
+        sys.path.insert(0, os.path.join(REPO, "src"))
+        import measured.parsing  # noqa
+        import measured._parser as pkg_parser
+        PkgP = pkg_parser.Parser()
+    except Exception as ex:  # noqa
+        c.oblige("measured._parser.Parser() can be constructed after importing measured.parsing", False, repr(ex)[:500])
     # ---------------- tie A: Coq obligations on the regenerated tables
     names = sorted({k for T in (A, B) for row in T["states"].values() for k in row} | {t[0] for T in (A, B) for t in T["terminals"]} | {"$END"})
     sid = {n: i + 1 for i, n in enumerate(names)}
@@ -268,6 +278,9 @@ def main():
     for s in cand + strings:
         for start in ("unit", "quantity"):
             ra, rb = run_parser(ShippedP, start, s), run_parser(FreshP, start, s)
+            if PkgP is not None:
+                rp = run_parser(PkgP, start, s)
+                if rp != ra and ra == rb: ra = rp      # report the in-package parser when only it deviates
             c.count([start, s], nontrivial=True)
             if ra[0] == "ok": acc += 1
             else: rej += 1
